@@ -56,9 +56,16 @@ class Architecture:
         for config in self.yaml["architecture"]:
             subtrees[config] = self.yaml["architecture"][config].copy()
 
+        # A level shared between configurations (e.g., through a YAML
+        # anchor) is the same object; it must only be cleaned once
+        cleaned = set()
         for config in subtrees:
             while subtrees[config]:
                 tree = subtrees[config].pop()
+
+                if id(tree) in cleaned:
+                    continue
+                cleaned.add(id(tree))
 
                 if "name" not in tree.keys():
                     raise ValueError("Unnamed subtree: " + repr(tree))
